@@ -14,6 +14,9 @@ case: ( trigger roller pre a0 ops )   -- see harness/src/rolling_c05.rs
   ops    : [0, [chunk...]] | [1, a] | [2, [[rec...]...]]  (burst of threads) | [3, t] (set the hook clock)
            | [4, a] hot restart (old instance stays alive) | [5, [chunk...]] append through the old instance
            | [6] drop the old instance | [7, [chunk...]] append while the roller is set to fail
+           | [10, [chunk...], record, via] append whose encoder (via 1) or roller (via 2) appends `record` to a SECOND
+             rolling appender (side/cur.log, SizeTrigger(10), window of 2) from inside the call; for the model of the
+             main appender an ordinary append; the second appender is judged by the stream / size oracles
            | [8] newest archive slot becomes a symlink to /dev/full (real ENOSPC on the archive write) | [9] heal;
              appends between 8 and 9 are, for the model and the oracles, appends with a failing roller (kind 7)
 impl/model result: one entry per op (entry 0 = initial build):
@@ -126,6 +129,9 @@ def flatten_for_model(case, impl):
         if o[0] == 5:
             out.append([0, o[1]])      # append through the old instance: same O_APPEND stream
             continue
+        if o[0] == 10:
+            out.append([0, o[1]])      # for the main appender an ordinary append (the nested one goes elsewhere)
+            continue
         if o[0] != 2:
             out.append(o)
             continue
@@ -154,7 +160,7 @@ def model_lines(ctx, cases, lines, impl_lines):
     vc = ctx["vc"]
     out = []
     for c, line, il in zip(cases, lines, impl_lines):
-        if c[0][0] == 3 or any(o[0] in (2, 3, 4, 5, 6, 8, 9) for o in c[4]):
+        if c[0][0] == 3 or any(o[0] in (2, 3, 4, 5, 6, 8, 9, 10) for o in c[4]):
             try:
                 iv = vc.parse(il)
             except Exception:
@@ -211,6 +217,7 @@ def compare(case, impl, model):
     life_appends = 0
     mj = 0                    # index into model entries
     prev_snap = None
+    side_stream = []          # records acknowledged by the SIDE appender (op 10), in order
     for i in range(len(ops) + 1):
         ent = impl[i]
         if not isinstance(ent, list) or len(ent) < 3:
@@ -270,7 +277,7 @@ def compare(case, impl, model):
                 if not ok:
                     return ("op %d: directory right after the call (background rotation possibly running) %r is none of "
                             "the %d states of the background-rotation model %r" % (i, pend, len(cands), cands))
-            new_recs = [rec_of(o[1])] if o[0] in (0, 5, 7) else []
+            new_recs = [rec_of(o[1])] if o[0] in (0, 5, 7, 10) else []
             if o[0] == 7 and m_err and is_pre_trigger(trig):
                 new_recs = []          # pre-processing: the early Err return skipped the write
         if errors != m_err:
@@ -291,6 +298,13 @@ def compare(case, impl, model):
                     i, c[2], c[3], " (roller set to fail)" if o[0] == 7 else "")
         nreq = sum(1 for c in consults if c[2])
         nrolled = sum(1 for c in consults if c[3])
+        if o[0] == 10:
+            # a record handed to a SECOND rolling appender (size trigger 10 bytes, window of 2) from inside this
+            # call - by the encoder (via 1) or by the roller (via 2): it is a record like any other for THAT
+            # appender: acknowledged means stored, and the size trigger rolls as always
+            d = side_oracle(i, o, ent, nreq, side_stream)
+            if d:
+                return d
         rolls_total += nrolled
         STATS["rotations"] += nrolled
         if o[0] == 7 and nreq:
@@ -340,6 +354,37 @@ def compare(case, impl, model):
                         return "op %d: while a background rotation was pending the retained record %r was in no file" % (i, r)
     if mj != len(model):
         return "model produced %d entries, expected %d" % (len(model), mj)
+    return None
+
+
+SIDE_LIMIT = 10
+
+
+def side_oracle(i, o, ent, nreq, side_stream):
+    if len(ent) < 4 or not isinstance(ent[3], list) or len(ent[3]) != 2:
+        return "op %d: no observation of the side appender" % i
+    fired, lst = ent[3]
+    via = o[3]
+    expect_fired = True if via == 1 else (nreq > 0)
+    if bool(fired) != expect_fired:
+        return ("op %d: the nested append to the second rolling appender (issued by the %s of this call) %s"
+                % (i, "encoder" if via == 1 else "roller", "did not happen" if expect_fired else "happened without a roll"))
+    if not fired:
+        return None
+    STATS["nested_side_appends"] = STATS.get("nested_side_appends", 0) + 1
+    if fired != 1:
+        return "op %d: the nested append to the second rolling appender returned Err" % i
+    side_stream.append(bytes(o[2]))
+    snap = sorted((k_, idx, bytes(b)) for k_, idx, b in lst)
+    d, _found = check_stream_found(snap, side_stream, 2, 0, 10 ** 9)
+    if d:
+        return "op %d: second rolling appender (record appended from inside this call): %s" % (i, d)
+    if not any(bytes(o[2]) in b for _k, _i, b in snap):
+        return "op %d: the record acknowledged by the second rolling appender is in none of its files" % i
+    act = [b for k_, _, b in snap if k_ == 0]
+    if act and len(act[0]) > SIDE_LIMIT:
+        return ("op %d: second rolling appender: active file holds %d > limit %d bytes after the nested append "
+                "(no rotation)" % (i, len(act[0]), SIDE_LIMIT))
     return None
 
 
@@ -434,6 +479,10 @@ def describe(case):
             return "archive slot healed"
         if o[0] == 7:
             return "append %d bytes in %d chunk(s), roller set to fail" % (len(rec_of(o[1])), len(o[1]))
+        if o[0] == 10:
+            return ("append %d bytes in %d chunk(s); its %s appends a %d-byte record to a second rolling appender "
+                    "(size trigger 10, window 2) from inside the call" % (
+                        len(rec_of(o[1])), len(o[1]), "encoder" if o[3] == 1 else "roller", len(o[2])))
         return "burst %r" % ([[len(rec_of(r_)) for r_ in t_] for t_ in o[1]],)
     return {"trigger": t, "roller": r,
             "pre_existing_bytes": (len(pre[1]) if pre[0] == 1 else None),
